@@ -34,6 +34,10 @@ def modelObs : List String → String
   | ["GA", c, sz, afa, mfa] =>
     let (ret, cur, ms, calls) := gortAlloc (w c) (w sz) (BitVec.ofNat 64 0x1001) (failAtOf afa) (failAtOf mfa)
     (s!"{ret.toNat} {cur.toNat} {ms} {calls.length} {callsStr calls}").trimAscii.toString
+  | ["K", c] =>
+    -- switching to the kernel's own address space leaves the reservation cursor where it is (the
+    -- result code depends on the page tables and is not modelled: only the cursor is compared)
+    s!"{(w c).toNat}"
   | ["P", req] =>
     -- the bitmap allocator maps its own state through a reservation of `req` bytes: one page per
     -- 4096 bytes (rounded up), starting at the reserved address, consecutively
@@ -103,6 +107,9 @@ def oracle (op : List String) (obs : List Nat) : List String :=
     if code = 0 then
       (if n ≠ ceilBytes (nat! req) / 4096 ∨ first ≠ 0 ∨ contig ≠ 1 then ["client-maps-exact-pages"] else [])
     else []
+  | ["K", c], [_, cur'] =>
+    -- every region reserved before stays reserved: the next reservation must start below them
+    (if cur' ≠ nat! c then ["setup-keeps-reservations"] else [])
   | ["map"], _ => []
   | _, _ => ["bad-line"]
 
@@ -121,7 +128,8 @@ def processLine (st : St) (line : String) : IO St := do
     let obs := (toks obsS).map nat!
     let mut st := { st with stats := st.stats.bump "ops" |>.bump s!"op_{op.headD "?"}" }
     let m := modelObs op
-    if m.trimAscii.toString ≠ obsS.trimAscii.toString then
+    let implCmp := if op.head? = some "K" then " ".intercalate ((toks obsS).drop 1) else obsS
+    if m.trimAscii.toString ≠ implCmp.trimAscii.toString then
       IO.println s!"MISMATCH case={st.caseId} op={opS} model={m} impl={obsS}"
       st := { st with stats := st.stats.bump "mismatch" }
     for cl in oracle op obs do
@@ -134,6 +142,7 @@ def processLine (st : St) (line : String) : IO St := do
     match op, obs with
     | ["R", _, _], [_, _, cur'] => st := { st with last := cur' }
     | ("M" :: _), (_ :: _ :: cur' :: _) => st := { st with last := cur' }
+    | ["K", _], [_, cur'] => st := { st with last := cur', stats := st.stats.bump "setup_switches" }
     | _, _ => pure ()
     match op, obs with
     | ["R", _, s], [1, addr, _] =>
